@@ -64,19 +64,72 @@ func runSearch(a map[string]string) {
 	if !bigR.ProbablyPrime(32) {
 		emit(viol{"group-order-not-prime", "bn256.Order fails Miller-Rabin", map[string]string{"Order": bigR.String()}})
 	}
+	// S5 related messages, one process, every ordered pair, both temporal orders
+	for f := 0; f < 1+n/6; f++ {
+		sk := g.sk()
+		pk := groupsig.GeneratePubkey(seckeyOf(sk))
+		pkb := pk.Serialize()
+		fam := g.relatedMsgs()
+		if f%2 == 1 {
+			// reverse the order in which the messages are first seen
+			for i, j := 0, len(fam)-1; i < j; i, j = i+1, j-1 {
+				fam[i], fam[j] = fam[j], fam[i]
+			}
+		}
+		sigs := make([][]byte, len(fam))
+		for i, m := range fam {
+			sg := groupsig.Sign(seckeyOf(sk), m.b)
+			sigs[i] = sg.Serialize()
+		}
+		for i := range fam {
+			for j := range fam {
+				evals++
+				got := hx.Guard(func() string { return b01(verify(pkb, fam[j].b, sigs[i])) })
+				want := b01(i == j)
+				results["related="+got]++
+				if got == want {
+					continue
+				}
+				seq := "sign " + sk.String() + " " + hx.Hex(fam[i].b) + " ; verify " + hx.Hex(pkb) + " " + hx.Hex(fam[j].b) + " " + hx.Hex(sigs[i])
+				if i == j {
+					emit(viol{"honest-signature-rejected", fmt.Sprintf("signature of message %q rejected for that same message after related messages were hashed in the same process", fam[i].class),
+						map[string]string{"line": seq, "class": fam[i].class, "expected": want, "observed": got}})
+				} else {
+					emit(viol{"forged-sig-accepted:related-msg", fmt.Sprintf("signature made for message %q (%d bytes) verifies for the different message %q (%d bytes)",
+						fam[i].class, len(fam[i].b), fam[j].class, len(fam[j].b)),
+						map[string]string{"line": seq, "class": fam[i].class + "->" + fam[j].class, "expected": want, "observed": got,
+							"m1": hx.Hex(fam[i].b), "m2": hx.Hex(fam[j].b)}})
+				}
+			}
+		}
+		// signing again after all of the above gives the same bytes (no state leaks into Sign)
+		for i, m := range fam {
+			sg := groupsig.Sign(seckeyOf(sk), m.b)
+			evals++
+			if !bytes.Equal(sg.Serialize(), sigs[i]) {
+				emit(viol{"sign-not-deterministic", "Sign(sk, m) changed after other messages were processed: " + m.class,
+					map[string]string{"line": "sign " + sk.String() + " " + hx.Hex(m.b), "class": m.class}})
+			}
+		}
+	}
+	classOrder := []int{4, 5, 6, 1, 3, 0, 2, 7}
 	for i := 0; i < n; i++ {
 		sk := g.sk()
-		msg := g.msg()
+		mc := classOrder[i%8]
+		msg := g.msgClass(mc)
+		if (mc == 4 || mc == 5) && (i/8)%2 == 0 {
+			sk = big.NewInt(1) // the signature itself then has the short coordinate
+		}
 		pk := groupsig.GeneratePubkey(seckeyOf(sk))
 		pkb := pk.Serialize()
 		cands := g.sigCandidates(sk, msg)
 		honest := cands[0].b
-		hp, _ := ptOf(hx.Hex(honest))
+		hp := new(bn.G1).ScalarMult(refG1(msg), sk)
 		// a few extra random scalar multiples of the honest signature and of H(m)
 		for j := 0; j < 4; j++ {
 			k := g.scalar()
 			cands = append(cands, cand{"k*sigma", new(bn.G1).ScalarMult(hp, k).Marshal()})
-			cands = append(cands, cand{"k*H(m)", new(bn.G1).ScalarMult(hashG1(msg), k).Marshal()})
+			cands = append(cands, cand{"k*H(m)", new(bn.G1).ScalarMult(refG1(msg), k).Marshal()})
 		}
 		for _, c := range cands {
 			got := hx.Guard(func() string { return b01(verify(pkb, msg, c.b)) })
@@ -118,7 +171,13 @@ func runSearch(a map[string]string) {
 				map[string]string{"line": line, "class": c.class, "expected": want, "observed": got, "honest_sig": hx.Hex(honest)}})
 		}
 		// S1b: other keys / other encodings of the key, honest signature
+		// (presupposes that the honest signature verifies under the honest key; if it does not,
+		// S1 has already reported that and the key-side expectations would only echo it)
+		baseOK := hx.Guard(func() string { return b01(verify(pkb, msg, honest)) }) == "1"
 		for _, k := range g.pkCandidates(sk) {
+			if !baseOK {
+				break
+			}
 			got := hx.Guard(func() string { return b01(verify(k.b, msg, honest)) })
 			evals++
 			results["pk:"+k.class+"="+got]++
@@ -185,7 +244,7 @@ func runSearch(a map[string]string) {
 		// S3 pairing sampled
 		{
 			aa, bb := g.sk(), g.sk()
-			P := hashG1(r.Bytes(8))
+			P := refG1(r.Bytes(8))
 			Q := new(bn.G2).ScalarBaseMult(g.sk())
 			lhs := bn.Pair(new(bn.G1).ScalarMult(P, aa), new(bn.G2).ScalarMult(Q, bb))
 			ab := new(big.Int).Mul(aa, bb)
@@ -200,7 +259,7 @@ func runSearch(a map[string]string) {
 				emit(viol{"pairing-degenerate", "e(P,Q) == 1 for non-identity P, Q", map[string]string{"P": hx.Hex(P.Marshal()), "Q": hx.Hex(Q.Marshal())}})
 			}
 			// additivity in each argument
-			P2 := hashG1(r.Bytes(8))
+			P2 := refG1(r.Bytes(8))
 			l2 := bn.Pair(new(bn.G1).Add(P, P2), Q)
 			r2 := new(bn.GT).Add(bn.Pair(P, Q), bn.Pair(P2, Q))
 			evals++
